@@ -15,7 +15,7 @@ EXTENDS SDJWT, Json, IOUtils
 Rec == ndJsonDeserialize(IOEnv.TRACE)
 VARIABLES l, st
 
-KeyFamT == [k \in {"K1", "K2", "H1", "H2"} |-> "EC"] @@ [k \in {"KE1", "KE2", "HE1", "HE2"} |-> "ED"] @@ [k \in {"S1", "S2", "pub-as-hmac"} |-> "HMAC"]
+KeyFamT == [k \in {"K1", "K2", "H1", "H2", "HK1"} |-> "EC"] @@ [k \in {"KE1", "KE2", "HE1", "HE2"} |-> "ED"] @@ [k \in {"S1", "S2", "pub-as-hmac"} |-> "HMAC"]
            @@ [k \in {"KR1", "KR2", "HR1", "HR2", "KR4"} |-> "RSA"] @@ [k \in {"KP1", "KP2"} |-> "EC384"]
 
 \* ---- verdict and exercise registers ----
